@@ -429,7 +429,7 @@ static void run_c14s(void)
             int km, im;
             /* Mantis: the direction the object was keyed in x the direction named by the invalid call */
             for (km = 0; km < (c == CK_MANTIS ? 2 : 1); ++km) for (im = 0; im < (c == CK_MANTIS ? 2 : 1); ++im)
-            for (cls = 0; cls < 12; ++cls) {
+            for (cls = 0; cls < 14; ++cls) {
                 char d2[120];
                 const int KM = km ? MANTIS_DECRYPT : MANTIS_ENCRYPT, IM = im ? MANTIS_DECRYPT : MANTIS_ENCRYPT;
                 if (c == CK_MANTIS) snprintf(d2, sizeof(d2), "par %d %d %d %d keyed-%s call-%s", c, be, state, cls, km ? "decrypt" : "encrypt", im ? "decrypt" : "encrypt");
@@ -458,10 +458,13 @@ static void run_c14s(void)
                 /* ragged byte counts that contain whole vector batches, in the decrypt direction too */
                 case 9: r = par_crypt((Cipher)c, &o, out, in, tw, (size_t)par_batch((Cipher)c, be) + 1, 1); break;
                 case 10: r = par_crypt((Cipher)c, &o, out, in, tw, 2 * (size_t)par_batch((Cipher)c, be) + (size_t)bs + 3, 1); break;
-                default: r = par_crypt((Cipher)c, &o, out, in, tw, 2 * (size_t)par_batch((Cipher)c, be) + (size_t)bs - 1, 0); break;
+                case 11: r = par_crypt((Cipher)c, &o, out, in, tw, 2 * (size_t)par_batch((Cipher)c, be) + (size_t)bs - 1, 0); break;
+                /* Mantis: round counts that equal a legal one modulo 32 / modulo 2^31; Skinny: a key one byte over the maximum */
+                case 12: if (c == CK_MANTIS) r = par_set_key((Cipher)c, &o, key, 16, 38, IM); else r = par_set_key((Cipher)c, &o, key, 3u * (unsigned)bs + 1, 5, IM); break;
+                default: if (c == CK_MANTIS) r = par_set_key((Cipher)c, &o, key, 16, 0x80000005u, IM); else r = par_set_key((Cipher)c, &o, key, 0x80000000u + (unsigned)bs, 5, IM); break;
                 }
                 lb = par_image((Cipher)c, &o, b, sizeof(b));
-                if (r != 0) { char fn[80]; snprintf(fn, sizeof(fn), "%s_%s", pfn, cls <= 3 || (cls == 8 && c == CK_MANTIS) ? "set_key" : "crypt"); c14_report(fn, "invalid-call-return", cd, "invalid call class %d on a %s object (%s) returned %d", cls, st[state], be_name(be), r); }
+                if (r != 0) { char fn[80]; snprintf(fn, sizeof(fn), "%s_%s", pfn, cls <= 3 || cls >= 12 || (cls == 8 && c == CK_MANTIS) ? "set_key" : "crypt"); c14_report(fn, "invalid-call-return", cd, "invalid call class %d on a %s object (%s) returned %d", cls, st[state], be_name(be), r); }
                 if (la != lb || memcmp(a, b, la) != 0) { char fn[80]; snprintf(fn, sizeof(fn), "%s", pfn); c14_report(fn, "invalid-call-changed-object", cd, "invalid call class %d changed a %s object", cls, st[state]); }
                 { int i2; for (i2 = 0; i2 < 300; ++i2) if (out[i2] != 0xEE) { c14_report(pfn, "invalid-call-wrote-output", cd, "invalid call class %d wrote to the output buffer", cls); break; } }
                 if (!arena_check_canaries()) c14_report(pfn, "invalid-call-wrote-outside", cd, "allocator slack modified");
